@@ -185,6 +185,7 @@ def handle (j : Json) : Except String Verdict := do
     let scope : List Field := match bad.bind (fun i => fields[i]?) with
       | some f => [f]
       | none => fields
+    if fields.isEmpty then "no-fields" else
     ((scope.flatMap (fieldSuspects backend)).headD ((fields.flatMap (fieldSuspects backend)).headD "-"))
   let mut tags : List String := (fields.flatMap schemaTags).eraseDups ++
     [s!"marrow:{mcls}", s!"rows:{if rows.length == 0 then "0" else if rows.length < 8 then "<8" else "≥8"}"]
@@ -233,7 +234,7 @@ def handle (j : Json) : Except String Verdict := do
       tags := s!"gap:{dstGaps.headD ""}" :: tags
     else
       if specSig == "" then
-        specSig := s!"C19/outcome/{family p.dst}={cls}/marrow={mcls}/{culpritOf (family p.dst)}"
+        specSig := s!"C19/outcome/{p.dst}={cls}/marrow={mcls}/{culpritOf (family p.dst)}"
         specWhy := s!"{p.name}: {cls} where to_marrow gives {mcls}: {(p.out.compress.take 300).toString}"
     -- (d)
     match p.batch with
